@@ -1521,6 +1521,8 @@ where
                     // table - still the current one - could reach freed memory. so wait until
                     // every bin has been handed over.
                     while self.next_table.load(Ordering::SeqCst, guard) == table {
+                        #[cfg(flurry_verif)]
+                        crate::verif::spin_hint();
                         std::thread::yield_now();
                     }
                     // start from the first bin again in the new table
